@@ -4,6 +4,7 @@
 #include <fcppt/cast/size_fun.hpp>
 #include <fcppt/cast/static_cast_fun.hpp>
 #include <fcppt/math/size_type.hpp>
+#include <fcppt/math/static_size.hpp>
 #include <fcppt/math/dim/arithmetic.hpp>
 #include <fcppt/math/dim/comparison.hpp>
 #include <fcppt/math/dim/contents.hpp>
@@ -173,6 +174,108 @@ void square_ops()
   }
 }
 
+// a view storage (same shape as the one in test/math/vector/view_storage.cpp): elements live in caller-owned memory
+template <typename T, size_type N>
+class view_storage
+{
+public:
+  using value_type = T;
+  using size_type = fcppt::math::size_type;
+  using storage_size = fcppt::math::static_size<N>;
+  using pointer = value_type *;
+  using reference = value_type &;
+  using const_reference = value_type const &;
+  explicit view_storage(pointer const _data) : data_(_data) {}
+  reference operator[](size_type const _index) { return data_[_index]; }
+  const_reference operator[](size_type const _index) const { return data_[_index]; }
+
+private:
+  pointer data_;
+};
+
+template <size_type R, size_type C>
+void cross_storage_matrix()
+{
+  namespace mx = fcppt::math::matrix;
+  using static_mat = mx::static_<scalar, R, C>;
+  using view_mat = mx::object<scalar, R, C, view_storage<scalar, R * C>>;
+  static_mat &s{drv::lv<static_mat>()};
+  view_mat &v{drv::lv<view_mat>()};
+  s = drv::clv<view_mat>();
+  v = drv::clv<static_mat>();
+}
+
+template <size_type N>
+void cross_storage_vector()
+{
+  namespace vx = fcppt::math::vector;
+  namespace dx = fcppt::math::dim;
+  using static_vec = vx::static_<scalar, N>;
+  using view_vec = vx::object<scalar, N, view_storage<scalar, N>>;
+  static_vec &s{drv::lv<static_vec>()};
+  view_vec &v{drv::lv<view_vec>()};
+  s = drv::clv<view_vec>();
+  v = drv::clv<static_vec>();
+  using static_dim = dx::static_<scalar, N>;
+  using view_dim = dx::object<scalar, N, view_storage<scalar, N>>;
+  static_dim &sd{drv::lv<static_dim>()};
+  view_dim &vd{drv::lv<view_dim>()};
+  sd = drv::clv<view_dim>();
+  vd = drv::clv<static_dim>();
+}
+
+template <size_type R, size_type C>
+auto scenario_convert_matrix(
+    fcppt::math::matrix::object<scalar, R, C, view_storage<scalar, R * C>> const &_m)
+{
+  return fcppt::math::matrix::static_<scalar, R, C>{_m};
+}
+
+template <size_type N>
+auto scenario_convert_vector(fcppt::math::vector::object<scalar, N, view_storage<scalar, N>> const &_v)
+{
+  return fcppt::math::vector::static_<scalar, N>{_v};
+}
+
+// mixed scalar types: the operand type is narrower than the type of the product
+using narrow = signed char;
+
+template <size_type R, size_type C>
+void mixed_matrix()
+{
+  namespace mx = fcppt::math::matrix;
+  namespace vx = fcppt::math::vector;
+  mx::static_<narrow, R, C> const &a{drv::clv<mx::static_<narrow, R, C>>()};
+  (void)(a * drv::clv<vx::static_<scalar, C>>());
+  (void)(a * drv::clv<mx::static_<scalar, C, R>>());
+  (void)(drv::clv<mx::static_<scalar, C, R>>() * a);
+  (void)(a + drv::clv<mx::static_<scalar, R, C>>());
+  (void)(a - drv::clv<mx::static_<scalar, R, C>>());
+  (void)(a * drv::clv<scalar>());
+  (void)(drv::clv<scalar>() * a);
+}
+
+template <size_type N>
+void mixed_vector()
+{
+  namespace vx = fcppt::math::vector;
+  namespace dx = fcppt::math::dim;
+  vx::static_<narrow, N> const &a{drv::clv<vx::static_<narrow, N>>()};
+  vx::static_<scalar, N> const &b{drv::clv<vx::static_<scalar, N>>()};
+  (void)(a + b);
+  (void)(b - a);
+  (void)(a * b);
+  (void)(a * drv::clv<scalar>());
+  (void)(drv::clv<scalar>() * a);
+  dx::static_<narrow, N> const &c{drv::clv<dx::static_<narrow, N>>()};
+  dx::static_<scalar, N> const &d{drv::clv<dx::static_<scalar, N>>()};
+  (void)(c + d);
+  (void)(d - c);
+  (void)(c * d);
+  (void)(c * drv::clv<scalar>());
+  (void)(drv::clv<scalar>() * c);
+}
+
 // every element accessor of a shape (the reader side of the storage layout)
 template <size_type R, size_type C, size_type... Is>
 void all_at_r_c(std::integer_sequence<size_type, Is...>)
@@ -332,6 +435,21 @@ DRV(drv_math_shapes)
   named_accessors<2>();
   named_accessors<3>();
   named_accessors<4>();
+  cross_storage_matrix<2, 2>();
+  cross_storage_matrix<2, 3>();
+  cross_storage_matrix<3, 3>();
+  cross_storage_matrix<4, 4>();
+  cross_storage_vector<1>();
+  cross_storage_vector<3>();
+  cross_storage_vector<4>();
+  (void)scenario_convert_matrix<2, 3>(drv::clv<fcppt::math::matrix::object<scalar, 2, 3, view_storage<scalar, 6>>>());
+  (void)scenario_convert_matrix<3, 3>(drv::clv<fcppt::math::matrix::object<scalar, 3, 3, view_storage<scalar, 9>>>());
+  (void)scenario_convert_vector<3>(drv::clv<fcppt::math::vector::object<scalar, 3, view_storage<scalar, 3>>>());
+  mixed_matrix<2, 2>();
+  mixed_matrix<2, 3>();
+  mixed_matrix<4, 4>();
+  mixed_vector<2>();
+  mixed_vector<4>();
 }
 
 DRV(drv_math_vectors)
